@@ -256,10 +256,8 @@ def run_case(case):
         from holopy.core.metadata import flat
         data = flat(data)
         npx = int(0.6 * N * N)
-    if case["strategy"] == "nmpfit":
-        strat = NmpfitStrategy(npixels=npx, seed=1234 if npx else None)
-    else:
-        strat = LeastSquaresScipyStrategy(npixels=npx)
+    mk_strat = (lambda: NmpfitStrategy(npixels=npx, seed=1234 if npx else None)) if case["strategy"] == "nmpfit" else (lambda: LeastSquaresScipyStrategy(npixels=npx))
+    strat = mk_strat()
     d_model, d_data, d_strat = digest(model), digest(data), digest(strat._dict)
     flags, resid = {}, {}
     np.random.seed(99)
@@ -309,6 +307,27 @@ def run_case(case):
     flags["second_fit_identical"] = bool(all(res2.parameters[k] == got[k] for k in keys))
     if not flags["second_fit_identical"]:
         resid["second_fit_diff"] = fnum(max(abs(res2.parameters[k] - got[k]) / abs(got[k]) for k in keys))
+    # the same strategy object then fits ANOTHER particle (a series of holograms): other generating values, other guesses, other
+    # bounds; started at its generating values -- the result is that of a fresh strategy object with the same settings
+    if not (case.get("preflat") or case.get("flat_then_npixels")):
+        tb = {"r": truth["r"] * 0.8 + 0.1, "x": truth["x"] - 0.17 * W * (case["fx"] - 0.5), "y": truth["y"] + 0.3 * sp, "z": truth["z"] * 1.3 + 0.5,
+              "alpha": truth["alpha"] * 0.93}
+        th_b = th_true
+        data_b = calc_holo(det, Sphere(n=case["n"], r=tb["r"], center=(tb["x"], tb["y"], tb["z"])), nmed, wl, pol, theory=th_b, scaling=tb["alpha"])
+        data_b = update_metadata(data_b, noise_sd=0.05)
+        bb = {"r": (0.05, 2.0), "x": (off[0] - 1.0, off[0] + W + 1.0), "y": (off[1] - 1.0, off[1] + N * spy + 1.0), "z": (0.5, 60.0), "alpha": (0.2, 1.4)}
+        kb = ["r", "x", "y", "z", "alpha"]
+        def mk_b():
+            pb = {k: Uniform(bb[k][0], bb[k][1], guess=tb[k], name=k) for k in kb}
+            return AlphaModel(Sphere(n=case["n"], r=pb["r"], center=[pb["x"], pb["y"], pb["z"]]), alpha=pb["alpha"],
+                              theory=(MieLens(lens_angle=case["lens_angle"]) if lens else Mie()), noise_sd=0.05, medium_index=nmed, illum_wavelen=wl, illum_polarization=pol)
+        np.random.seed(99)
+        res_rb = hp.fit(data_b, mk_b(), strategy=strat)
+        np.random.seed(99)
+        res_fb = hp.fit(data_b, mk_b(), strategy=mk_strat())
+        flags["reused_strategy_on_other_model_equals_fresh_strategy"] = bool(all(res_rb.parameters[k] == res_fb.parameters[k] for k in kb))
+        resid["fixed_point@other_model_same_strategy"] = fnum(max(abs(res_rb.parameters[k] - tb[k]) / abs(tb[k]) for k in kb))
+        flags["strategy_settings_unchanged@other_model"] = bool(digest(strat._dict) == d_strat)
     # the derived quantities of a result do not depend on the order they are looked at: on the second result the hologram of the
     # initial guess is read first, then the fitted hologram (the first result was read the other way round)
     def _vs_full(h, pars):
